@@ -40,7 +40,7 @@ NOT_IMPL = ['$range', '$reverseArray', '$indexOfArray', '$setIntersection', '$se
             '$setIsSubset', '$anyElementTrue', '$allElementsTrue', '$strLenCP', '$strLenBytes',
             '$substrCP', '$substrBytes', '$trim', '$toInt', '$toLong', '$convert', '$cmp',
             '$mergeObjects', '$isoWeek', '$stdDevPop', '$zip', '$reduce', '$indexOfCP',
-            '$toDecimal', '$isoDayOfWeek']
+            '$toDecimal', '$isoDayOfWeek', '$dateFromString']
 UNKNOWN = ['$type', '$toDouble', '$toBool', '$ltrim', '$toDate', '$foo', '$setField']
 
 
@@ -424,6 +424,7 @@ class ExprGen(object):
         (4.0, n_nary), (3.0, n_binary), (2.5, n_unary), (1.2, n_size), (1.5, n_datepart),
         (0.5, n_datediff), (1.2, n_group), (0.6, n_strcasecmp),
         (1.0, lambda s, d: s.g_arrelem('num', d)),
+        (0.8, lambda s, d: s.n_partof(d)),
     ]
 
     # -- str ------------------------------------------------------------------------------------
@@ -588,7 +589,74 @@ class ExprGen(object):
             args.append(self.sub('date', d))
         return self.op('$add', args)
 
-    p_date = generic('date') + [(3.0, d_sub), (2.5, d_add)]
+    PART_KEYS = ['year', 'month', 'day', 'hour', 'minute', 'second', 'millisecond']
+    PARTS_IN = {'year': [1, 4, 1900, 1970, 1999, 2000, 2020, 2023, 2024, 9999],
+                'month': list(range(1, 13)), 'day': list(range(1, 29)),
+                'hour': list(range(24)), 'minute': [0, 1, 29, 30, 59], 'second': [0, 1, 30, 59],
+                'millisecond': [0, 1, 7, 123, 500, 999]}
+    PARTS_EDGE = {'year': [1, 9999, 2000, 1900, 2024], 'month': [1, 2, 12], 'day': [28, 29, 30, 31],
+                  'hour': [0, 23], 'minute': [0, 59], 'second': [0, 59], 'millisecond': [0, 999]}
+    PARTS_OUT = {'year': [0, 10000, -1, 2 ** 31, 2 ** 40], 'month': [0, 13, 14, -1, 25],
+                 'day': [0, 32, 31, 30, -1, 366], 'hour': [24, -1, 48], 'minute': [60, -1, 1440],
+                 'second': [60, -1, 86400], 'millisecond': [-1, 1000, 86400000, -86400001, 1.5,
+                                                            0.5, 61001, 10 ** 14]}
+    PARTS_ODD = ['', 'x', True, False, 2.0, 0.0, [], [1], {}, 2 ** 31, -2 ** 31 - 1, 2 ** 63 - 1]
+
+    def parts(self, d, mode):
+        """the named arguments of $dateFromParts: in range / at the ends of the ranges / outside
+        (carried by the rules) / null and missing / of odd types and names"""
+        r = self.r
+        spec = {}
+        for k in self.PART_KEYS:
+            if k != 'year' and r.random() < (0.35 if mode != 'full' else 0.0):
+                continue
+            pool = self.PARTS_IN
+            if mode == 'edge' and r.random() < 0.7:
+                pool = self.PARTS_EDGE
+            spec[k] = r.choice(pool[k])
+        keys = list(spec)
+        if mode == 'out':
+            for k in r.sample(keys, min(len(keys), r.choice([1, 1, 2]))):
+                spec[k] = r.choice(self.PARTS_OUT[k])
+        elif mode == 'null':
+            for k in r.sample(keys, min(len(keys), r.choice([1, 1, 2]))):
+                spec[k] = r.choice([None, '$zz', '$a', '$b', '$d.n', self.sub('num', d)])
+        elif mode == 'field':
+            for k in r.sample(keys, min(len(keys), r.choice([1, 2]))):
+                spec[k] = r.choice(['$a', '$b', '$d.n', self.sub('num', d),
+                                    {'$add': [r.choice(self.PARTS_IN[k]), '$a']}])
+        elif mode == 'odd':
+            x = r.random()
+            if x < 0.3:
+                spec[r.choice(keys)] = r.choice(self.PARTS_ODD)
+            elif x < 0.5:
+                spec[r.choice(['isoWeekYear', 'isoWeek', 'isoDayOfWeek', 'timezone', 'foo'])] = \
+                    r.choice([2020, 1, 'UTC'])
+            elif x < 0.6:
+                del spec['year']
+            elif x < 0.7:
+                spec = {'date': r.choice(DATES), 'timezone': 'UTC'}
+            else:
+                return r.choice(['$d', '$zz', 5, None, [spec], [], '$t', {'$literal': spec}])
+        if r.random() < 0.3:
+            items = list(spec.items())
+            r.shuffle(items)
+            spec = dict(items)
+        return spec
+
+    def d_fromparts(self, d):
+        mode = self.r.choice(['in', 'in', 'in', 'full', 'full', 'edge', 'edge', 'out', 'out',
+                              'null', 'field', 'field', 'odd'])
+        return self.op('$dateFromParts', self.parts(max(d - 1, 0), mode))
+
+    def n_partof(self, d):
+        """a date part of a date built from parts"""
+        op = self.r.choice(['$year', '$month', '$dayOfMonth', '$hour', '$minute', '$second',
+                            '$millisecond', '$dayOfWeek', '$dayOfYear', '$week'])
+        mode = self.r.choice(['full', 'full', 'in', 'edge', 'edge', 'out', 'null', 'field'])
+        return self.un(op, self.op('$dateFromParts', self.parts(max(d - 1, 0), mode)))
+
+    p_date = generic('date') + [(3.0, d_sub), (2.5, d_add), (3.0, d_fromparts)]
 
     def o_lit(self, d):
         self.ops['{doc}'] += 1
